@@ -1,5 +1,80 @@
 package main
 
+import (
+	"encoding/json"
+	"os"
+	"os/exec"
+	"sort"
+	"strings"
+)
+
+// thoroughTier: set by runCheck; rules that decide a clause on a pool use a
+// larger pool in the thorough tier.
+var thoroughTier bool
+
 // crossReference: thorough tier only, informational (never part of the
-// verdict): diagnostics of generic tools that fall in the property's anchors.
-func crossReference(p *Program, pd *propDef) any { return nil }
+// verdict): diagnostics of the generic tools (go vet, staticcheck) that fall in
+// the files the property's properties.jsonl entry anchors. They are listed in
+// the evidence so that a reader can see whether an off-the-shelf lint says
+// anything about the anchored code; no rule depends on them.
+func crossReference(p *Program, pd *propDef) any {
+	files := anchorFiles(pd.ID)
+	if len(files) == 0 {
+		return nil
+	}
+	out := map[string]any{"anchor_files": files}
+	for _, tool := range [][]string{{"go", "vet", "./..."}, {"staticcheck", "./..."}} {
+		if _, err := exec.LookPath(tool[0]); err != nil {
+			out[tool[0]] = "not installed"
+			continue
+		}
+		cmd := exec.Command(tool[0], tool[1:]...)
+		cmd.Dir = p.RepoDir
+		cmd.Env = append(os.Environ(), "GOFLAGS=-mod=mod", "GOPROXY=off", "GOSUMDB=off", "GOTOOLCHAIN=local", "GOWORK=off")
+		b, _ := cmd.CombinedOutput()
+		var hits []string
+		for _, l := range strings.Split(string(b), "\n") {
+			for _, f := range files {
+				if strings.HasPrefix(l, f+":") || strings.Contains(l, "/"+f+":") {
+					if !strings.Contains(l, "_test.go") {
+						hits = append(hits, l)
+					}
+				}
+			}
+		}
+		sort.Strings(hits)
+		if len(hits) > 20 {
+			hits = append(hits[:20], "…")
+		}
+		name := strings.Join(tool[:len(tool)-1], " ")
+		if hits == nil {
+			hits = []string{}
+		}
+		out[name] = hits
+	}
+	return out
+}
+
+func anchorFiles(id string) []string {
+	f, err := os.Open(verifDir() + "/properties.jsonl")
+	if err != nil {
+		return nil
+	}
+	defer f.Close()
+	dec := json.NewDecoder(f)
+	for dec.More() {
+		var pr struct {
+			ID      string `json:"id"`
+			Anchors struct {
+				Files []string `json:"files"`
+			} `json:"anchors"`
+		}
+		if err := dec.Decode(&pr); err != nil {
+			return nil
+		}
+		if pr.ID == id {
+			return pr.Anchors.Files
+		}
+	}
+	return nil
+}
